@@ -235,8 +235,10 @@ class MibCompiler(object):
 
                         parsedMibs[mibInfo.name] = fileInfo, mibInfo, mibTree
 
-                        if mibname in failedMibs:
-                            del failedMibs[mibname]
+                        for failedName in (mibname, mibInfo.name):
+                            if failedName in failedMibs:
+                                del failedMibs[failedName]
+                                processed.pop(failedName, None)
 
                         mibsToParse.extend(mibInfo.imported)
 
